@@ -144,6 +144,7 @@ class BcastClientSide(Redis):
         channel = await self._get_channel()
         self._listen_started.set()
         await self._local_cache.clear()
+        await self._recently_update.clear()  # writes made while nobody listened have no echo to wait for
         while not self.__listen_stop.is_set():
             message = await channel.get_message(ignore_subscribe_messages=True, timeout=0.1)
             if message is None or "data" not in message:
